@@ -160,7 +160,13 @@ func (m *LedgerMonitor) Check(w *World, rep *verifutil.Report, b *types.Block, e
 	}
 	if delta.Cmp(allow) > 0 {
 		excess := new(big.Int).Sub(delta, allow)
-		rep.Violation("issuance:"+BlockKind(b)+":"+TxTypesOf(b), fmt.Sprintf("block %d (%s): total grew by %v, allowance %v, excess %v", b.Height(), BlockKind(b), delta, allow, excess),
+		sig := "issuance:" + BlockKind(b) + ":" + TxTypesOf(b)
+		if b.Header.Flags().HasFlag(types.ValidationFinished) && new(big.Int).Mul(excess, big.NewInt(1000000)).Cmp(allow) < 0 {
+			// the epoch pool is overdrawn by less than a millionth: float32 accumulation of the
+			// reward weights (Σ weight_i as paid vs. the float32 total the share is divided by)
+			sig = "epoch-reward-rounding-excess:relative<1e-6"
+		}
+		rep.Violation(sig, fmt.Sprintf("block %d (%s): total grew by %v, allowance %v, excess %v", b.Height(), BlockKind(b), delta, allow, excess),
 			map[string]interface{}{"block": DescribeBlock(b), "delta": delta.String(), "allowance": allow.String(), "diff": LedgerDiff(m.Prev, cur)})
 	}
 }
